@@ -10,6 +10,7 @@ Case line:
            generator spec, see `expandSpec`; the observation is a digest of the full one)
 -/
 import Flussab.Model.Aig
+import Flussab.Model.AigStack
 import Driver.Util
 
 namespace Driver
@@ -274,7 +275,7 @@ def hex16 (n : UInt64) : String :=
 def runScaleCase (fs : List (String × String)) : String × String :=
   let (cfg, a) := expandSpec fs
   let cfgTag := s!"scale=1 trim={b2s cfg.trim} hash={b2s cfg.hash} fold={b2s cfg.fold}"
-  match renumberAig cfg a with
+  match renumberStack cfg a with
   | .ok (o, m) =>
     let full := s!"ok {showOrdered o} map={showMap m}"
     let merged := m.length - 1 - a.inputs.length - a.latches.length - o.gates.length
@@ -298,7 +299,7 @@ def runRenumberCase (line : String) : String × String :=
     constraints := parseNats (field fs "constraints"), justice := parseJustice (field fs "justice"),
     fairness := parseNats (field fs "fairness"), gates := parseGates (field fs "gates") }
   let cfgTag := s!"trim={b2s cfg.trim} hash={b2s cfg.hash} fold={b2s cfg.fold}"
-  match renumberAig cfg a with
+  match renumberStack cfg a with
   | .ok (o, m) =>
     let (e, f, h) := classify cfg a o m
     (s!"ok {showOrdered o} map={showMap m}",
